@@ -9,9 +9,8 @@ LEVEL = "other"
 LEVEL_TEXT = (
     "Structural necessary conditions of the round trip: the length prefix and the data block of every store command "
     "are the same converted value (R1); caller-supplied iterables are traversed once or materialised first (R2); the "
-    "fetch path maps the prefixed wire key back to the caller's own key object, deserialises with that key, the bytes "
-    "of the same VALUE line and its flags, and returns the found value itself rather than a truthiness-filtered one (R3); "
-    "store results are keyed by the caller's key; every key-addressed command applies the configured prefix (R4). "
+    "public retrieval/storage methods interpreted end to end against scripted replies hand back, under the caller's own "
+    "key object, deserialize(that key, the data block of its VALUE line, its flags) and the found value itself (R3); every key-addressed command applies the configured prefix (R4). "
     "Bit-for-bit equality of values of every size, serializer round trips (see C15) and 'exactly once' for multi-key "
     "replies against a server model are not decided."
 )
